@@ -64,7 +64,7 @@ def type_guard(v, T):
 def analyse_rule(ck, name, f, P, date, done, rnd):
     pyname = f.__name__
     try:
-        kw, syms = gt.rule_args(f, P)
+        kw, syms = gt.rule_args(f, P, widen=True)
     except R.Unsupported as e:
         ck.not_encoded[pyname] = str(e)
         return
